@@ -35,6 +35,17 @@ def eval_term(t):
     raise common.MachineryError('unknown term %r' % (t.get('t'),))
 
 
+NONMINIMAL = {
+    'pushdata1-20': lambda idx: b'\x6a\x4c\x14' + bytes([idx % 256]) * 20,
+    'pushdata2-4': lambda idx: b'\x6a\x4d\x04\x00' + idx.to_bytes(4, 'big'),
+    'push-of-small-number': lambda idx: b'\x6a\x01' + bytes([1 + idx % 16]),
+    # lengths at the CompactSize boundary 0xffff (the script length is part of both preimages)
+    'data65534': lambda idx: b'\x6a\x4d' + (65530).to_bytes(2, 'little') + bytes([idx % 251]) * 65530,
+    'data65535': lambda idx: b'\x6a\x4d' + (65531).to_bytes(2, 'little') + bytes([idx % 251]) * 65531,
+    'data65536': lambda idx: b'\x6a\x4d' + (65532).to_bytes(2, 'little') + bytes([idx % 251]) * 65532,
+}
+
+
 def gen_shapes(ck, thorough):
     rng = ck.rng
     shapes = []
@@ -56,7 +67,8 @@ def gen_shapes(ck, thorough):
         outs = []
         for _ in range(nout):
             outs.append({'value': rng.choice([0, 1, 546, 2 ** 32, 2 ** 32 + 7, 10 ** 6]),
-                         'kind': rng.choice(['p2pkh', 'p2sh', 'p2wpkh', 'p2wsh', 'nulldata', 'op1'])})
+                         'kind': rng.choice(['p2pkh', 'p2sh', 'p2wpkh', 'p2wsh', 'nulldata', 'op1', 'pushdata1-20', 'pushdata2-4',
+                                             'push-of-small-number'])})
         return {'net': net, 'version': rng.choice(versions), 'locktime': rng.choice(locktimes), 'ins': ins, 'outs': outs}
     n = 0
     for k in KINDS:                                       # one input of every kind
@@ -73,6 +85,12 @@ def gen_shapes(ck, thorough):
     for nout in (252, 253) + ((254,) if thorough else ()):      # output counts across the CompactSize boundary
         for k in ('p2pkh', 'p2wpkh', 'p2sh-multisig'):
             shapes.append(mk([k, rng.choice(KINDS)], nout, NETWORKS[n % len(NETWORKS)]))
+            n += 1
+    for big in ('data65535', 'data65534') + (('data65536',) if thorough else ()):      # script length at the 0xffff boundary
+        for k in ('p2pkh', 'p2wpkh'):
+            sh = mk([k], 1, NETWORKS[n % len(NETWORKS)])
+            sh['outs'].append({'value': 0, 'kind': big})
+            shapes.append(sh)
             n += 1
     return shapes
 
@@ -133,6 +151,10 @@ def run_shape(job):
                 t.add_output(o['value'], k.address(encoding='bech32', script_type=kind))
             elif kind == 'nulldata':
                 t.add_output(0, lock_script=b'\x6a\x04' + idx.to_bytes(4, 'big'))
+                o['value'] = 0
+            elif kind in NONMINIMAL:
+                # scripts that do not survive a parse / re-serialize cycle unchanged: the digest commits to the bytes as they are
+                t.add_output(0, lock_script=NONMINIMAL[kind](idx))
                 o['value'] = 0
             else:
                 t.add_output(o['value'], lock_script=b'\x51')
